@@ -59,7 +59,7 @@ def gen_growth(rng, cfg, k):
     return lines
 
 def run(ctx):
-    ok = ctx.lean(['AmcVerif.Props.C18'])
+    ok = ctx.lean(['AmcVerif.Props.C18', 'AmcVerif.Props.C18b'])
     n = 12 if ctx.tier == 'quick' else 80
     if not ok:
         n *= 3
